@@ -242,6 +242,20 @@ theorem resolve_diverges_counterexample (fuel : Nat) :
       [.pre, .sep, .pre, .ch 'a', .suf, .pre, .ch 'a', .suf, .suf] = .outOfFuel :=
   Div.diverges fuel
 
+/-- the first witness found (4 keys: o = "${", c = "}", b = "${o}u:${o}b${c}",
+    e = "w${o}e${c}${o}c${c}", input "${u:${b}${e}${c}}"), kernel-evaluated for ONE fuel only
+    (every terminating case of the harness' exhaustive streams ends within 13 calls); the proof
+    for all fuels is given for the 2-key witness above -/
+theorem resolve_diverges_witness4 :
+    resolveTop id 40
+      [([.ch 'o'], [.pre]), ([.ch 'c'], [.suf]),
+       ([.ch 'b'], [.pre, .ch 'o', .suf, .ch 'u', .sep, .pre, .ch 'o', .suf, .ch 'b', .pre, .ch 'c', .suf]),
+       ([.ch 'e'], [.ch 'w', .pre, .ch 'o', .suf, .ch 'e', .pre, .ch 'c', .suf, .pre, .ch 'o', .suf,
+          .ch 'c', .pre, .ch 'c', .suf])]
+      [.pre, .ch 'u', .sep, .pre, .ch 'b', .suf, .pre, .ch 'e', .suf, .pre, .ch 'c', .suf, .suf]
+      = .outOfFuel := by
+  decide +kernel
+
 /-- hence the general `resolve_terminates` is refuted -/
 theorem resolve_terminates_refuted :
     ¬ ∀ (tbl : Table) (s : Toks), ∃ n, ∀ m, n ≤ m → resolve id m tbl s [] ≠ .outOfFuel := by
